@@ -277,18 +277,20 @@ class CylcWorkflowDBChecker:
         # (Outputs and flow_nums are serialised).
         if task:
             if '*' in task:
-                # Replace Cylc ID wildcard with Sqlite query wildcard.
-                task = task.replace('*', '%')
-                stmt_wheres.append("name like ?")
+                # Cylc ID wildcard: use the (case-sensitive) Sqlite GLOB
+                # operator; only "*" is special in Cylc IDs.
+                # (LIKE is case-insensitive and treats "_" as a wildcard.)
+                task = task.replace('[', '[[]').replace('?', '[?]')
+                stmt_wheres.append("name GLOB ?")
             else:
                 stmt_wheres.append("name==?")
             stmt_args.append(task)
 
         if cycle:
             if '*' in cycle:
-                # Replace Cylc ID wildcard with Sqlite query wildcard.
-                cycle = cycle.replace('*', '%')
-                stmt_wheres.append("cycle like ?")
+                # Cylc ID wildcard: (as above).
+                cycle = cycle.replace('[', '[[]').replace('?', '[?]')
+                stmt_wheres.append("cycle GLOB ?")
             else:
                 stmt_wheres.append("cycle==?")
             stmt_args.append(cycle)
